@@ -252,3 +252,126 @@ def deep_bodies():
             out.append(["n"] * depth + inner + ["r"] * depth)
         out.append(["n"] * depth + ["c1", "r"] + ["c0", "x"] + ["r"] * (depth - 1))       # raises on the way out, one level up
     return out
+
+
+# ============================================================================= audit M2 / M4: dispatch details
+
+def stream_dispatch(ctx):
+    """M4: what `*` / `@` / `.mul` / `pp.mul` return for every KIND of partner (group LieTensor, algebra LieTensor, plain tensor
+    of width 3 / 4 / other, python scalar) vs the model's `mulSig`;  M2: which python object a handled function returns when a
+    pp.Parameter is among the operands (`cls = Parameter` ⇒ a LieTensor result is wrapped again) vs `torchFunctionCls`."""
+    P = pp()
+    c06 = C()
+    cases, lines = [], []
+    for lt in LTYPES:
+        d = DIM[lt]
+        grp = lt in GROUPS
+        partners = [("same", 0, lambda dt, ls, lt=lt: c06._lie(_fill(c06.POOLS.get(lt, dt), ls), lt))]
+        for a in ("so3", "rxso3", "se3"):
+            partners.append(("lie", a, (lambda dt, ls, a=a: c06._lie(_fill(c06.POOLS.get(a, dt), ls), a))))
+        for w, kind in ((3, "p3"), (4, "p4")):
+            partners.append(("tensor", w, (lambda dt, ls, kind=kind: _fill(c06.POOLS.get(kind, dt), ls))))
+        partners.append(("tensor", 5, lambda dt, ls: torch.ones(tuple(ls) + (5,), dtype=DT[dt])))
+        partners.append(("scalar", 0, lambda dt, ls: 2.5))
+        if not grp:      # algebra: element-wise product, partner widths d (same) or 1
+            partners = [("same", 0, partners[0][2]), ("tensor", 1, lambda dt, ls: torch.full(tuple(ls) + (1,), 2.0, dtype=DT[dt])), ("scalar", 0, lambda dt, ls: 2.5)]
+        for ls in [(), (3,), (2, 0)]:
+            for kind, w, mkp in partners:
+                for spell, f in (("*", lambda X, y: X * y), ("@", lambda X, y: X @ y), ("pp.mul", lambda X, y: P.mul(X, y))):
+                    if spell == "@" and kind != "same" and kind != "lie":
+                        continue          # `@` with a non-LieTensor is documented as Act: covered by the act sites
+                    cases.append((lt, ls, kind, w, mkp, spell, f))
+                    lines.append(f"c06.mulsig {lt} {kind} {w} {wl(ls)}")
+    reps = ctx.driver.run(lines)
+    with warnings.catch_warnings():
+        warnings.simplefilter("ignore")
+        for (lt, ls, kind, w, mkp, spell, f), rep in zip(cases, reps):
+            case = {"kind": "dispatch", "what": "mul", "lt": lt, "s": list(ls), "partner": kind, "width": w, "spelling": spell}
+            ctx.note_case(("dispatch", lt, ls, kind, w, spell), True)
+            ctx.count("dispatch.mul")
+            X = c06._lie(_fill(c06.POOLS.get(lt, "float64"), ls), lt)
+            st, toks = common.parse_reply(rep)
+            try:
+                r = f(X, mkp("float64", ls))
+                got = ("lie", ltype_name(r.ltype), tuple(r.shape)) if isinstance(r, P.LieTensor) else ("tensor", "-", tuple(r.shape))
+            except (AssertionError, NotImplementedError, AttributeError, TypeError) as e:
+                got = ("raise", type(e).__name__)
+            except Exception as e:
+                got = ("raise", type(e).__name__)
+            if st != "ok":
+                want = ("raise",)
+            else:
+                i = toks.index("S")
+                want = (toks[0], toks[1], tuple(int(t) for t in toks[i + 2:i + 2 + int(toks[i + 1])]))
+            if kind == "lie" and lt in GROUPS and got[0] != "raise" and want[0] != "raise":
+                # an algebra LieTensor taken for points (exotic; scope rule): only the shape is modelled — SO3 tags the result with the
+                # partner's ltype, the other groups return a plain tensor
+                ctx.count("dispatch.observation.algebra_partner_taken_for_points." + got[0])
+                got, want = ("any", "-", got[2]), ("any", "-", want[2])
+            if got[0] != want[0] or (got[0] != "raise" and got != want):
+                ctx.disagree("dispatch", case, f"{lt} {spell} ({kind} partner, width {w}) on lshape {ls}: implementation {got}, model mulSig {want}")
+    # ---- M2
+    idx = torch.tensor([1, 0])
+    recipes = [("copy_", lambda X, Pm: (torch.Tensor.copy_, (X, Pm))), ("copy_", lambda X, Pm: (torch.Tensor.copy_, (X, Pm.detach()))),
+               ("index_copy_", lambda X, Pm: (torch.Tensor.index_copy_, (X, 0, idx, Pm))), ("cat", lambda X, Pm: (torch.cat, ([X, Pm],))),
+               ("cat", lambda X, Pm: (torch.cat, ([Pm, X],))), ("clone", lambda X, Pm: (torch.clone, (Pm,))), ("detach", lambda X, Pm: (torch.detach, (Pm,))),
+               ("index_select", lambda X, Pm: (torch.index_select, (Pm, 0, idx))), ("copy_", lambda X, Pm: (torch.Tensor.copy_, (Pm, X))),
+               ("sum", lambda X, Pm: (torch.sum, (Pm, 0))), ("unbind", lambda X, Pm: (torch.unbind, (Pm, 0)))]
+    lines, metas = [], []
+    with warnings.catch_warnings():
+        warnings.simplefilter("ignore")
+        for lt in LTYPES:
+            k = LTYPES.index(lt)
+            for name, rec in recipes:
+                X = c06._lie(c06.POOLS.get(lt, "float64")[:2].clone(), lt)
+                Pm = P.Parameter(c06._lie(c06.POOLS.get(lt, "float64")[2:4].clone(), lt), requires_grad=False)
+                fn, args = rec(X, Pm)
+                flat = c06.flat_leaves(list(args))
+
+                def code(o):
+                    if type(o) is P.Parameter:
+                        return f"P{k}"
+                    if isinstance(o, P.LieTensor):
+                        return f"L{k}"
+                    return "T" if isinstance(o, torch.Tensor) else "O"
+                acodes = [code(a) for a in flat]
+                case = {"kind": "dispatch", "what": "cls", "lt": lt, "name": name, "args": acodes}
+                ctx.note_case(("dispatch", "cls", lt, name, tuple(acodes)), True)
+                ctx.count("dispatch.cls")
+                try:
+                    r = fn(*args)
+                except Exception as e:
+                    ctx.fail(case, f"tf-raises: torch.{name} with operand kinds {acodes} raises {type(e).__name__}: {str(e)[:80]}")
+                    continue
+                outs = c06.flat_leaves(r)
+                pre, got = [], []
+                for o in outs:
+                    same = [a for a in flat if a is o]
+                    share = [a for a in flat if isinstance(a, torch.Tensor) and isinstance(o, torch.Tensor) and o.numel() and a.data_ptr() == o.data_ptr() and a.shape == o.shape]
+                    # what Tensor.__torch_function__ handed back: the operand itself for in-place functions, else a plain tensor
+                    src = same[0] if same else (share[0] if share and name.endswith("_") else None)
+                    pre.append(code(src) if src is not None else ("T" if isinstance(o, torch.Tensor) else "O"))
+                    got.append(code(o) + ("" if same or src is None or not name.endswith("_") else "!"))
+                lines.append(f"c06.tfc {name} {' '.join(acodes)} | {' '.join(pre)}")
+                metas.append((case, got, pre))
+                for o in outs:
+                    if isinstance(o, torch.Tensor) and name in ("copy_", "index_copy_", "cat", "clone", "detach", "index_select", "unbind") and \
+                            (not isinstance(o, P.LieTensor) or o.ltype is not ltype_of(lt)):
+                        ctx.fail(case, f"ltype: handled {name} with a pp.Parameter operand returned {type(o).__name__} / {ltype_name(getattr(o, 'ltype', None))}")
+    for rep, (case, got, pre) in zip(ctx.driver.run(lines), metas):
+        st, toks = common.parse_reply(rep)
+        # identity is only observable for in-place functions (result shares the operand's storage): compare kinds always, `!` there
+        want = toks if st == "ok" else None
+        g2 = [g.rstrip("!") for g in got]
+        w2 = [w.rstrip("!") for w in want] if want else None
+        if g2 != w2 or (case["name"].endswith("_") and got != want):
+            ctx.disagree("dispatch", case, f"torch.{case['name']} {case['args']}: implementation returns {got} (`!` = a new python object), model torchFunctionCls {want}")
+        if any(g.endswith("!") for g in got):
+            ctx.count("dispatch.observation.inplace_result_is_not_self_with_Parameter_operand")
+
+
+def _fill(pool, ls):
+    n = numel(ls)
+    if n == 0:
+        return pool[:0].reshape(tuple(ls) + (pool.shape[1],)).clone()
+    return pool[torch.arange(n) % pool.shape[0]].reshape(tuple(ls) + (pool.shape[1],)).clone()
